@@ -155,6 +155,8 @@ static int walk(int kind, const uint8_t *a, size_t n, int mode, size_t piece, ob
 		if (o->members >= AB_MAXMEM) break;
 		o->hdr[o->members] = header_hash(h);
 		vf_step(o->hdr[o->members]);
+		/* -pm1- is endless by specification: a member declaring gigabytes legitimately produces them; list it only */
+		if (mode && h->length > (32u << 20) && !strcmp(h->compress_method, "-pm1-")) { ++o->members; continue; }
 		if (mode == 1) {
 			uint64_t bh = 0;
 			size_t tot = 0, got;
@@ -693,6 +695,119 @@ static void space_verdict(void)
 	}
 }
 
+/* ------------------------------------------------------------------ mutated archives under the sanitizers (C08) */
+
+static void extract_walk(const uint8_t *a, size_t n)
+{
+	mem_stream ms;
+	LHAInputStream *st = mem_open(&ms, a, n, 1);
+	LHAReader *rd = lha_reader_new(st);
+	LHAFileHeader *h;
+	int k = 0;
+	char name[64];
+	while ((h = lha_reader_next_file(rd)) != NULL && k < 200) {
+		/* explicit output names: the library itself does not confine header paths */
+		snprintf(name, sizeof name, "c08-out-%d", k);
+		if (!(h->length > (32u << 20) && !strcmp(h->compress_method, "-pm1-")))
+			lha_reader_extract(rd, name, NULL, NULL);
+		(void) lha_reader_current_is_fake(rd);
+		++k;
+	}
+	lha_reader_free(rd);
+	lha_input_stream_free(st);
+	while (k-- > 0) {
+		snprintf(name, sizeof name, "c08-out-%d", k);
+		if (unlink(name) != 0) rmdir(name);
+	}
+}
+
+static void four_walks(const uint8_t *a, size_t n)
+{
+	obs_t o;
+	walk(K_SKIPFAIL, a, n, 0, 0, &o);
+	vf_step(obs_hash(&o));
+	walk(K_NOSKIP, a, n, 1, 7, &o);
+	vf_step(obs_hash(&o));
+	walk(K_SEEKLIKE, a, n, 2, 0, &o);
+	vf_step(obs_hash(&o));
+	extract_walk(a, n);
+	vf_outcome(obs_hash(&o));
+}
+
+static void space_mutate(void)
+{
+	static const uint8_t quickvals[15] = { 0x00, 0x01, 0x02, 0x03, 0x04, 0x1F, 0x20, 0x2D, 0x2F, 0x5C, 0x7C, 0x7F, 0x80, 0xFE, 0xFF };
+	static uint8_t t[1 << 20];
+	int ai, mi2, full = atoi(vf_extra("full", "0"));
+	build_archives();
+	for (ai = 0; ai < NARCS; ++ai) {
+		ab_arc *a = &ARCS[ai];
+		if (a->n > 30000) continue;
+		for (mi2 = 0; mi2 < a->nm; ++mi2) {
+			ab_member *m = &a->m[mi2];
+			size_t pos;
+			for (pos = m->hdr_off; pos < m->hdr_off + m->hdr_len; ++pos) {
+				unsigned v;
+				if (!vf_case("archive=%d member=%d header byte %zu: %s substitutions, delete, duplicate", ai, mi2, pos - m->hdr_off, full ? "all 255" : "15 values")) continue;
+				for (v = 0; v < (full ? 256u : 15u); ++v) {
+					uint8_t nv = full ? (uint8_t) v : quickvals[v];
+					if (nv == a->buf[pos]) continue;
+					memcpy(t, a->buf, a->n);
+					t[pos] = nv;
+					/* keep the additive checksum consistent half of the time so that the damaged field is actually used */
+					if (m->level <= 1 && (v & 1) && pos != m->hdr_off + 1) {
+						unsigned sum = 0; size_t q, hs = t[m->hdr_off];
+						for (q = m->hdr_off + 2; q < m->hdr_off + 2 + hs && q < a->n; ++q) sum += t[q];
+						t[m->hdr_off + 1] = (uint8_t) sum;
+					}
+					four_walks(t, a->n);
+				}
+				/* byte deleted, byte duplicated */
+				memcpy(t, a->buf, pos); memcpy(t + pos, a->buf + pos + 1, a->n - pos - 1);
+				four_walks(t, a->n - 1);
+				memcpy(t, a->buf, pos + 1); memcpy(t + pos + 1, a->buf + pos, a->n - pos);
+				four_walks(t, a->n + 1);
+				vf_nontrivial(vf_mix(ai * 64 + mi2, pos));
+			}
+			/* truncations inside this member */
+			for (pos = m->hdr_off; pos < m->data_off + (m->data_len < 40 ? m->data_len : 40); ++pos) {
+				if (!vf_case("archive=%d member=%d truncated at %zu", ai, mi2, pos)) continue;
+				four_walks(a->buf, pos);
+				vf_nontrivial(vf_mix(ai * 64 + mi2, 100000 + pos));
+			}
+			/* length fields singly and in pairs: boundary values */
+			{
+				static const uint32_t lv[11] = { 0, 1, 2, 3, 0x7F, 0xFF, 0xFFFF, 0x80000000u, 0xFFFFFFFFu, 0x100, 0x10000 };
+				size_t foff[6]; int fw[6], nf = 0, i, j, x, y;
+				if (m->level <= 1) { foff[nf] = 0; fw[nf++] = 1; foff[nf] = 21; fw[nf++] = 1; }
+				else if (m->level == 2) { foff[nf] = 0; fw[nf++] = 2; }
+				else { foff[nf] = 24; fw[nf++] = 4; }
+				foff[nf] = 7; fw[nf++] = 4;
+				foff[nf] = 11; fw[nf++] = 4;
+				if (m->level >= 1) { foff[nf] = m->level == 1 ? (size_t) a->buf[m->hdr_off] : m->level == 2 ? 24 : 28; fw[nf++] = m->level == 3 ? 4 : 2; }
+				for (i = 0; i < nf; ++i)
+				for (j = i; j < nf; ++j) {
+					if (!vf_case("archive=%d member=%d length fields at %zu and %zu: boundary value pairs", ai, mi2, foff[i], foff[j])) continue;
+					for (x = 0; x < 11; ++x)
+					for (y = 0; y < (i == j ? 1 : 11); ++y) {
+						int b;
+						memcpy(t, a->buf, a->n);
+						for (b = 0; b < fw[i]; ++b) t[m->hdr_off + foff[i] + b] = (uint8_t) (lv[x] >> (8 * b));
+						if (i != j) for (b = 0; b < fw[j]; ++b) t[m->hdr_off + foff[j] + b] = (uint8_t) (lv[y] >> (8 * b));
+						if (m->level <= 1) {
+							unsigned sum = 0; size_t q, hs = t[m->hdr_off];
+							for (q = m->hdr_off + 2; q < m->hdr_off + 2 + hs && q < a->n; ++q) sum += t[q];
+							t[m->hdr_off + 1] = (uint8_t) sum;
+						}
+						four_walks(t, a->n);
+					}
+					vf_nontrivial(vf_mix(ai * 64 + mi2, 200000 + i * 8 + j));
+				}
+			}
+		}
+	}
+}
+
 int main(int argc, char **argv)
 {
 	int prop;
@@ -702,6 +817,7 @@ int main(int argc, char **argv)
 	else if (!strcmp(VF.space, "sfx")) space_sfx();
 	else if (!strcmp(VF.space, "extreme")) space_extreme();
 	else if (!strcmp(VF.space, "verdict")) space_verdict();
+	else if (!strcmp(VF.space, "mutate")) space_mutate();
 	else { fprintf(stderr, "unknown space %s\n", VF.space); return 2; }
 	vf_done();
 	return 0;
